@@ -4,6 +4,7 @@
 //!   vharness run [--oracle <file>]               -> reads case lines on stdin, one response line each;
 //!                                                   oracle failures go to <file> as `lineno\tproperty\tmessage`
 //!   vharness tabulate types|fullwidth            -> translator input (exhaustive tabulation)
+mod ac;
 mod bin;
 mod cli;
 mod clicase;
@@ -42,6 +43,7 @@ fn main() {
                 "C09" | "C10" | "C11" | "C12" => gen_train::gen(&mut out, family, thorough, seed),
                 "C20" => clicase::gen(&mut out, thorough, seed),
                 "TL" => traincli::gen(&mut out, thorough, seed),
+                "AC" => ac::gen(&mut out, thorough, seed),
                 "C19" => dict::gen(&mut out, thorough, seed),
                 "C17" => kytea::gen(&mut out, thorough, seed),
                 "C18" => gen_pred::gen_c18(&mut out, thorough, seed),
@@ -145,6 +147,7 @@ fn run_case(line: &str, fails: &mut Vec<(String, String)>, effective: &mut Optio
         ["BD", n, seed, ..] => pred::run_bd(n.parse().unwrap_or(1000), seed.parse().unwrap_or(1), fails),
         ["TR", ..] => train::run(&toks, fails, effective),
         ["TL", ..] => traincli::run(&toks, fails),
+        ["AC", ..] => ac::run(&toks, fails),
         [k, ..] if matches!(*k, "KY" | "KYE" | "KYX") => kytea::run(&toks, fails),
         [k, ..] if matches!(*k, "RD" | "WJ" | "WP") => dict::run(&toks, fails),
         [k, ..] if matches!(*k, "CP" | "CE") => clicase::run(&toks, fails),
